@@ -4,6 +4,7 @@
 #include <shark/Data/Dataset.h>
 #include <shark/Data/DataView.h>
 #include <shark/Data/CVDatasetTools.h>
+#include <shark/Data/WeightedDataset.h>
 #include <shark/Core/Random.h>
 #include <fstream>
 #include <iostream>
@@ -44,13 +45,33 @@ template<> struct Enc<unsigned int> {
 	static unsigned int shift(unsigned int v, long f) { return (unsigned int)(v + f); }
 };
 
+// WeightedLabeledData::weightedInputs(): WeightedUnlabeledData<RealVector> / <CompressedRealVector> cannot be instantiated
+// (the virtual shuffle() swaps row proxies and does not compile), so the projection is exercised for scalar inputs only
+template<class I> struct WInputs {
+	static void dump(std::ostream& o, WeightedLabeledData<I, unsigned int> const&) { o << " wi=NA"; }
+};
+template<> struct WInputs<unsigned int> {
+	static void dump(std::ostream& o, WeightedLabeledData<unsigned int, unsigned int> const& w) {
+		WeightedUnlabeledData<unsigned int> wi = w.weightedInputs();
+		o << " wi=[";
+		for (std::size_t b = 0; b != wi.numberOfBatches(); ++b) {
+			if (b) o << "|";
+			auto const& bt = wi.batch(b);
+			for (std::size_t e = 0; e != batchSize(bt.weight); ++e) { if (e) o << ","; o << getBatchElement(bt.data, e) << ":" << getBatchElement(bt.weight, e); }
+		}
+		o << "] wisum=" << sumOfWeights(wi);
+	}
+};
+
 template<class I>
 struct Machine {
 	typedef LabeledData<I, unsigned int> DS;
 	std::vector<DS> R;
 	CVFolds<DS> F;            // sharing stream: the last fold object (its dataset is handle 6)
 	DataView<DS> V;           // sharing stream: the last view (its dataset is handle 7)
-	Machine() : R(6) {}
+	typedef WeightedLabeledData<I, unsigned int> WD;
+	std::vector<WD> Q;        // weighted stream
+	Machine() : R(6), Q(4) {}
 
 	static std::string shapeStr(Shape const& s) { std::ostringstream o; o << s; return o.str(); }
 
@@ -160,6 +181,56 @@ struct Machine {
 		else if (cmd == "CT") { int r = a[0]; markShapes(r, a[1]); auto f = createCVBatch(R[r], a[1]); dumpCV(o, f, r); }
 		else if (cmd == "CR") { int r = a[0]; markShapes(r, a[1]); R[r].makeIndependent(); auto f = createCVIID(R[r], a[1], a[2]); dumpCV(o, f, r); }
 		else if (cmd.size() == 2 && cmd[0] == 'X') { execShared(cmd, a, o); }
+		else if (cmd.size() == 2 && cmd[0] == 'Q') { execWeighted(cmd, a, o); }
+		else o << " ?";
+	}
+
+	// ---------------- weighted stream: WeightedLabeledData<I, unsigned>; every element is printed as id:label:weight ----------------
+	void dumpW(std::ostream& o, int r) {
+		WD const& w = Q[r];
+		o << " Q" << r << "=[";
+		bool bad = w.data().numberOfBatches() != w.weights().numberOfBatches();
+		for (std::size_t b = 0; b != w.numberOfBatches() && !bad; ++b) {
+			if (b) o << "|";
+			auto const& bt = w.batch(b);
+			std::size_t n = batchSize(bt.data.input), nl = batchSize(bt.data.label), nw = batchSize(bt.weight);
+			for (std::size_t e = 0; e != n; ++e) {
+				if (e) o << ",";
+				o << Enc<I>::id(I(getBatchElement(bt.data.input, e))) << ":";
+				if (e < nl) o << getBatchElement(bt.data.label, e); else o << "?";
+				o << ":";
+				if (e < nw) o << getBatchElement(bt.weight, e); else o << "?";
+			}
+			if (nl != n || nw != n) o << "!BATCH" << nl << "/" << nw;
+		}
+		o << "]";
+		if (bad) o << "!NBATCH";
+		o << " qs" << r << "=" << shapeStr(w.inputShape()) << " ql" << r << "=" << shapeStr(w.labelShape()) << " qw" << r << "=" << shapeStr(w.weights().shape());
+		o << " sumw" << r << "=" << sumOfWeights(w);
+		if (w.numberOfElements() != 0) { RealVector cw = classWeight(w); o << " cw" << r << "="; for (std::size_t c = 0; c != cw.size(); ++c) { if (c) o << ","; o << cw(c); } }
+	}
+	void execWeighted(std::string const& cmd, std::vector<long> const& a, std::ostream& o) {
+		char c = cmd[1];
+		if (c == 'N') { // QN r n m labels.. ids.. weights..
+			int r = a[0]; std::size_t n = a[1], m = a[2];
+			std::vector<I> in; std::vector<unsigned int> lab; std::vector<double> wt;
+			for (std::size_t i = 0; i != n; ++i) lab.push_back((unsigned)a[3 + i]);
+			for (std::size_t i = 0; i != n; ++i) in.push_back(Enc<I>::make(a[3 + n + i]));
+			for (std::size_t i = 0; i != n; ++i) wt.push_back((double)a[3 + 2 * n + i]);
+			DS d = createLabeledDataFromRange(in, lab, m);
+			Data<double> w = createDataFromRange(wt, m);
+			Q[r] = WD(d, w); dumpW(o, r);
+		}
+		else if (c == 'U') { int r = a[0], q = a[1]; WD t(Q[r].data(), (double)a[2]); Q[q] = t; dumpW(o, q); }
+		else if (c == 'I') { int r = a[0], q = a[1]; std::vector<std::size_t> s(a.begin() + 2, a.end());
+			auto sb = Q[r].indexedSubset(s);          // (returns the base class; WeightedLabeledData has no converting constructor)
+			Q[q] = WD(sb.data(), sb.weights()); dumpW(o, q); }
+		else if (c == 'L') { int r = a[0], q = a[1]; Q[r].makeIndependent(); WD t = Q[r].splice(a[2]); Q[q] = t; dumpW(o, r); dumpW(o, q); }
+		else if (c == 'A') { int r = a[0], q = a[1]; Q[r].append(Q[q]); dumpW(o, r); }
+		else if (c == 'P') { int r = a[0]; std::vector<std::size_t> s(a.begin() + 1, a.end()); Q[r].makeIndependent(); Q[r].repartition(s); dumpW(o, r); }
+		else if (c == 'S') { int r = a[0]; Q[r].makeIndependent(); Q[r].splitBatch(a[1], a[2]); dumpW(o, r); }
+		else if (c == 'B') { int r = a[0], q = a[1]; WD t = bootstrap(Q[r].data(), (std::size_t)a[2]); Q[q] = t; dumpW(o, q); }
+		else if (c == 'X') { WInputs<I>::dump(o, Q[a[0]]); }
 		else o << " ?";
 	}
 
